@@ -465,8 +465,7 @@ def judge_canon_case(case, rec: Recorder | None = None) -> list[Disc]:
                     discs.append(Disc(f'C10/canon/{t}/canonical-not-reparsable', 'a value', v2, f'{detail} canonical={c!r}'))
                 else:
                     nan = isinstance(v, float) and math.isnan(v)
-                    cls_ = ('datetime/' + _dt_class(refv, s)) if FAMILY[t] == 'datetime' else \
-                        'float/float-tiny' if (t == 'float' and 0 < abs(refv) < 1e-37) else t
+                    cls_ = ('datetime/' + _dt_class(refv, s)) if FAMILY[t] == 'datetime' else t
                     if not nan and not (v == v2 and v2 == v):
                         discs.append(Disc(f'C10/canon/{cls_}/reparse-not-equal', repr(v), repr(v2), f'{detail} canonical={c!r}'))
                     elif not nan:
@@ -517,8 +516,7 @@ def _judge_canonical_string(t, refv, refc, c, ver, detail, alt=None, s_in='') ->
         except (X.LexError, X.NoVerdict):
             same = False
         rng = 'special' if (math.isnan(refv) or math.isinf(refv) or refv == 0) else \
-            'decimal-range' if 0.000001 <= abs(refv) < 1000000 else \
-            'float-tiny' if (t == 'float' and abs(refv) < 1e-37) else 'sci-range'
+            'decimal-range' if 0.000001 <= abs(refv) < 1000000 else 'sci-range'
         kind = 'form' if same else 'value'
         if t == 'float' and not same and alt is not None:
             try:
@@ -653,9 +651,6 @@ def judge_cast_case(case, rec: Recorder | None = None) -> list[Disc]:
                             if kind and 'flt' in (X.table_class(S), X.table_class(T)) and \
                                     _float_as_double_explains(S, lex, T, ver, v1):
                                 kind = 'float-as-double' if kind == 'value' else 'float-as-double+' + kind
-                            if kind and ((S == 'float' and isinstance(refsrc, float) and 0 < abs(refsrc) < 1e-37) or
-                                         (T == 'float' and isinstance(expected[1], float) and 0 < abs(expected[1]) < 1e-37)):
-                                kind = 'float-tiny+' + kind
                             if kind and X.table_class(S) == 'dec' and refsrc == 0 and lex.strip(' \t\n\r').startswith('-'):
                                 kind = 'decimal-neg-zero+' + kind
                             if kind and X.table_class(S) in ('dT', 'dat', 'tim') and isinstance(refsrc, tuple):
